@@ -12,6 +12,29 @@ from vlib import log
 MODES = [("immediate", {}), ("deferred", {}), ("spurious", {}), ("deferred", {"gc": 1}), ("immediate", {"collect_every": 7})]
 
 
+# synchronous code whose callee blocks on order(): (body, answers in issue order)
+TWINS = {
+ "fn_ctor": ('function load(k: number): any { return order({ v: k }); }\nfunction Conn(this: any, k: number) { this.tag = "c" + k; this.p = load(k); this.tag += "!"; }\n'
+             'async function make(k: number) { const c = new (Conn as any)(k); return c.tag + ":" + (await c.p); }\nLOG((await make(1)) + "|" + (await make(2)));', [1, 2]),
+ "class_ctor_bare_return": ('function load(k: number): any { return order({ v: k }); }\nclass Conn { p: any; extra: string = "none"; constructor(k: number) { this.p = load(k); if (k > 0) return; this.extra = "zero"; } }\n'
+             'async function make(k: number) { const c = new Conn(k); return c.extra + ":" + (await c.p); }\nLOG((await make(0)) + "|" + (await make(5)));', [0, 5]),
+ "class_ctor": ('function load(k: number): any { return order({ v: k }); }\nclass Conn { p: any; tag: string; constructor(k: number) { this.tag = "t" + k; this.p = load(k); this.tag += "!"; } }\n'
+             'async function make(k: number) { const c = new Conn(k); return c.tag + ":" + (await c.p); }\nLOG((await make(7)) + "|" + (await make(8)));', [7, 8]),
+ "derived_ctor": ('class B { p: any; constructor(k: number) { this.p = order({ v: k }); } }\nclass D extends B { q: number; constructor(k: number) { super(k); this.q = k * 2; } }\nconst d = new D(4); LOG([await d.p, d.q, d instanceof D]);', [4]),
+ "call_chain": ('function c3(k: number): any { const local = [k, k + 1]; const r = order({ v: k }); return [r, local]; }\nfunction c2(k: number): any { const mine = "m" + k; const [r, l] = c3(k); return [r, l, mine]; }\n'
+             'function c1(k: number): any { let acc = 0; for (let i = 0; i < 3; i++) acc += i; const x = c2(k); return [...x, acc]; }\nconst [r, l, m, a] = c1(9); LOG([await r, l, m, a]);', [9]),
+ "method_receiver": ('const box = { n: 3, get(k: number): any { const before = this.n; const r = order({ v: k }); return [r, before, this.n]; } };\nconst [r, b, n] = box.get(6); LOG([await r, b, n]);', [6]),
+ "array_callback": ('const rs = [1, 2, 3].map((k) => order({ v: k * 10 }));\nLOG([await rs[0], await rs[1], await rs[2], rs.length]);', [10, 20, 30]),
+ "try_finally_around": ('function risky(k: number): any { try { return order({ v: k }); } finally { LOG("fin" + k); } }\nconst r = risky(2); LOG(await r); LOG("after");', [2]),
+ "generator_body": ('function* g(): any { const a = yield order({ v: 1 }); const b = yield order({ v: 2 }); return [a, b]; }\nconst it = g(); const p1 = it.next().value; const p2 = it.next(await p1).value; LOG(it.next(await p2).value);', [1, 2]),
+ "caller_registers": ('function leaf(k: number): any { return order({ v: k }); }\nfunction mid(k: number): any { return [{ a: k }, leaf(k), { b: k + 1 }]; }\n'
+             'function top(k: number): any { return [[k], mid(k), { c: [k, k] }, "s" + k]; }\nconst t = top(3); LOG([t[0], t[1][0], await t[1][1], t[1][2], t[2], t[3]]);', [3]),
+ "args_in_flight": ('function leaf(k: number): any { return order({ v: k }); }\nfunction join(a: any, b: any, c: any, d: any): any { return [a, b, c, d]; }\n'
+             'const r = join({ first: [1] }, leaf(4), [{ third: 3 }], leaf(5)); LOG([r[0], await r[1], r[2], await r[3]]);', [4, 5]),
+ "default_param_and_spread": ('function f(a: any = order({ v: 5 }), ...rest: any[]): any { return [a, rest.length]; }\nconst [a, n] = f(); LOG([await a, n]); const xs = [...[1, 2], order({ v: 6 })]; LOG([xs.length, await xs[2]]);', [5, 6]),
+}
+
+
 def main(tier):
     c = vlib.Check("C07")
     exe = vlib.build_harness()
@@ -50,22 +73,7 @@ def main(tier):
     # ---- transparency twins: SYNCHRONOUS code (constructors, methods, call chains, callbacks) whose callee blocks on order():
     # the run with real orders (answered at once / through host promises settled later / with spurious steps) must equal the run
     # in which `order` is an ordinary function returning the answer - the very statement of the property
-    TW = {
-     "fn_ctor": ('function load(k: number): any { return order({ v: k }); }\nfunction Conn(this: any, k: number) { this.tag = "c" + k; this.p = load(k); this.tag += "!"; }\n'
-                 'async function make(k: number) { const c = new (Conn as any)(k); return c.tag + ":" + (await c.p); }\nLOG((await make(1)) + "|" + (await make(2)));', [1, 2]),
-     "class_ctor_bare_return": ('function load(k: number): any { return order({ v: k }); }\nclass Conn { p: any; extra: string = "none"; constructor(k: number) { this.p = load(k); if (k > 0) return; this.extra = "zero"; } }\n'
-                 'async function make(k: number) { const c = new Conn(k); return c.extra + ":" + (await c.p); }\nLOG((await make(0)) + "|" + (await make(5)));', [0, 5]),
-     "class_ctor": ('function load(k: number): any { return order({ v: k }); }\nclass Conn { p: any; tag: string; constructor(k: number) { this.tag = "t" + k; this.p = load(k); this.tag += "!"; } }\n'
-                 'async function make(k: number) { const c = new Conn(k); return c.tag + ":" + (await c.p); }\nLOG((await make(7)) + "|" + (await make(8)));', [7, 8]),
-     "derived_ctor": ('class B { p: any; constructor(k: number) { this.p = order({ v: k }); } }\nclass D extends B { q: number; constructor(k: number) { super(k); this.q = k * 2; } }\nconst d = new D(4); LOG([await d.p, d.q, d instanceof D]);', [4]),
-     "call_chain": ('function c3(k: number): any { const local = [k, k + 1]; const r = order({ v: k }); return [r, local]; }\nfunction c2(k: number): any { const mine = "m" + k; const [r, l] = c3(k); return [r, l, mine]; }\n'
-                 'function c1(k: number): any { let acc = 0; for (let i = 0; i < 3; i++) acc += i; const x = c2(k); return [...x, acc]; }\nconst [r, l, m, a] = c1(9); LOG([await r, l, m, a]);', [9]),
-     "method_receiver": ('const box = { n: 3, get(k: number): any { const before = this.n; const r = order({ v: k }); return [r, before, this.n]; } };\nconst [r, b, n] = box.get(6); LOG([await r, b, n]);', [6]),
-     "array_callback": ('const rs = [1, 2, 3].map((k) => order({ v: k * 10 }));\nLOG([await rs[0], await rs[1], await rs[2], rs.length]);', [10, 20, 30]),
-     "try_finally_around": ('function risky(k: number): any { try { return order({ v: k }); } finally { LOG("fin" + k); } }\nconst r = risky(2); LOG(await r); LOG("after");', [2]),
-     "generator_body": ('function* g(): any { const a = yield order({ v: 1 }); const b = yield order({ v: 2 }); return [a, b]; }\nconst it = g(); const p1 = it.next().value; const p2 = it.next(await p1).value; LOG(it.next(await p2).value);', [1, 2]),
-     "default_param_and_spread": ('function f(a: any = order({ v: 5 }), ...rest: any[]): any { return [a, rest.length]; }\nconst [a, n] = f(); LOG([await a, n]); const xs = [...[1, 2], order({ v: 6 })]; LOG([xs.length, await xs[2]]);', [5, 6]),
-    }
+    TW = TWINS
     twjobs = []; twmeta = []
     for tag, (body, answers) in TW.items():
         real = 'import { LOG, ERR } from "verif:host";\nimport { order } from "tsrun:host";\ntry {\n' + body + '\n} catch (e) { ERR(e); }\n'
